@@ -45,14 +45,14 @@ VARIABLES mode, ign, dev,                           \* configuration
           cursor, prevI, lastRev,                   \* consumer
           began, chOpen, ended, stopping, closed,   \* life cycle
           bad, last,
-          cph, pipe, cview                          \* client design model (Judge = FALSE only)
+          cph, pipe, cview, sil                     \* client design model (Judge = FALSE only)
 
 cfgv   == <<mode, ign, dev>>
 store  == <<hist, compact>>
 srv    == <<gst, gres, wst, wrev, sent, snapR, snapQ, nsess>>
 cons   == <<cursor, prevI, lastRev>>
 life   == <<began, chOpen, ended, stopping, closed>>
-design == <<cph, pipe, cview>>
+design == <<cph, pipe, cview, sil>>
 svars  == <<cfgv, store, srv, cons, life>>
 allvars == <<svars, bad, last, design>>
 
@@ -88,7 +88,7 @@ InitWith(m, ig, dv) ==
   /\ cursor = 0 /\ prevI = 0 /\ lastRev = 0
   /\ began = FALSE /\ chOpen = FALSE /\ ended = "no" /\ stopping = FALSE /\ closed = FALSE
   /\ bad = "" /\ last = [op |-> "init", mode |-> m, ign |-> ig]
-  /\ cph = "idle" /\ pipe = <<>> /\ cview = <<>>
+  /\ cph = "idle" /\ pipe = <<>> /\ cview = <<>> /\ sil = 0
 
 -----------------------------------------------------------------------------
 (* environment: the store and the server side of the watch                    *)
@@ -152,8 +152,8 @@ SnapBase(q) == IF Has("R") /\ q.base > q.R - 1 THEN q.base ELSE q.R - 1
 RECURSIVE Cands(_, _, _)
 Cands(c, q, p) ==
   {[c |-> c, q |-> q, p |-> p]} \cup
-  IF q # <<>> /\ Head(q).silent /\ mode = "watcher"
-  THEN Cands(IF DOMAIN At(c) = {} \/ Has("G") THEN Max2(c, SnapBase(Head(q))) ELSE c, Tail(q), 0)
+  IF q # <<>> /\ Head(q).silent /\ mode = "watcher" /\ (DOMAIN At(c) = {} \/ Has("G"))
+  THEN Cands(Max2(c, SnapBase(Head(q))), Tail(q), 0)
   ELSE {}
 Drained == CHOOSE x \in Cands(cursor, snapQ, prevI) :
              \A y \in Cands(cursor, snapQ, prevI) : Len(x.q) <= Len(y.q)
@@ -196,16 +196,16 @@ ItemAlts(r) ==
   LET n == Len(r.evs)
       cs == Cands(cursor, snapQ, prevI)
       cont == {[c |-> x.c + n, q |-> x.q, p |-> x.c + 1, g |-> gres] : x \in
-                 {x \in cs : (Judge \/ r.h = "c") /\ n >= 1 /\ x.c + n <= Len(hist) /\ r.rev >= x.c + n + 1
+                 {x \in cs : (Judge \/ (r.h = "c" /\ r.i = x.c + 1 /\ r.na = Len(snapQ) - Len(x.q))) /\ n >= 1 /\ x.c + n <= Len(hist) /\ r.rev >= x.c + n + 1
                              /\ r.evs = SubSeq(hist, x.c + 1, x.c + n)}}
-      dupp == IF Has("D") /\ prevI >= 1 /\ cursor + 1 <= Len(hist) /\ r.rev >= cursor + 2
+      dupp == IF (Judge \/ (r.h = "c" /\ r.i = prevI)) /\ Has("D") /\ prevI >= 1 /\ cursor + 1 <= Len(hist) /\ r.rev >= cursor + 2
                  /\ r.evs = SubSeq(hist, prevI, cursor + 1)
               THEN {[c |-> cursor + 1, q |-> snapQ, p |-> prevI, g |-> gres]} ELSE {}
       snap == {[c |-> Max2(x.c, SnapBase(Head(x.q))), q |-> Tail(x.q), p |-> 0, g |-> gres] : x \in
-                 {x \in cs : (Judge \/ r.h = "s") /\ mode = "watcher" /\ x.q # <<>> /\ r.rev = Head(x.q).R
+                 {x \in cs : (Judge \/ (r.h = "s" /\ r.na = Len(snapQ) - Len(x.q))) /\ mode = "watcher" /\ x.q # <<>> /\ r.rev = Head(x.q).R
                              /\ SnapShape(r.evs, Head(x.q))
                              /\ (Has("G") \/ SnapFresh(r.evs, Head(x.q), x.c))}}
-      early == IF mode = "watcher" /\ snapQ = <<>> /\ gres = "full" /\ r.rev = snapR
+      early == IF (Judge \/ r.h = "s") /\ mode = "watcher" /\ snapQ = <<>> /\ gres = "full" /\ r.rev = snapR
                   /\ SnapShape(r.evs, [R |-> snapR]) /\ (Has("G") \/ SnapFresh(r.evs, [R |-> snapR], cursor))
                THEN {[c |-> Max2(cursor, snapR - 1), q |-> snapQ, p |-> 0, g |-> "given"]} ELSE {}
   IN IF r.rev <= Rev /\ r.rev >= lastRev THEN cont \cup dupp \cup snap \cup early ELSE {}
@@ -229,6 +229,7 @@ Recv(a) ==
        [] a.r.k = "empty" ->
          LET f == Drained IN
          IF ended # "no" \/ stopping \/ (mode = "dir" /\ wst = "dead") THEN Fail("term")
+         ELSE IF f.q # <<>> /\ Head(f.q).silent THEN Fail("stale")
          ELSE IF f.q # <<>> \/ (wst = "live" /\ f.c < Min2(sent, Len(hist))) THEN Fail("lost")
          ELSE IF mode = "watcher" /\ wst \in {"none", "dead"} /\ gst # "pend" THEN Fail("resil")
          ELSE /\ cursor' = f.c /\ snapQ' = f.q /\ prevI' = f.p
@@ -293,15 +294,16 @@ Do(a) ==
 ErrI == [k |-> "err", code |-> 1]
 ClosedI == [k |-> "closed"]
 EmptyI == [k |-> "empty"]
-Item(evs, rv, h) == [k |-> "item", evs |-> evs, rev |-> rv, h |-> h]   \* h: which kind the design meant
+Item(evs, rv, h, i, na) == [k |-> "item", evs |-> evs, rev |-> rv, h |-> h, i |-> i, na |-> na]
+   \* h, i, na: what the design meant (kind, first index, unreported empty reads in front of it)
 
 RespItems(lo, n) ==      \* one watch response carrying hist[lo+1 .. lo+n]
-  IF DCumulative THEN [i \in 1..n |-> Item(SubSeq(hist, lo + 1, lo + i), Rev, "c")]
-  ELSE <<Item(SubSeq(hist, lo + 1, lo + n), Rev, "c")>>
+  IF DCumulative THEN [i \in 1..n |-> Item(SubSeq(hist, lo + 1, lo + i), Rev, "c", lo + 1, IF i = 1 THEN sil ELSE 0)]
+  ELSE <<Item(SubSeq(hist, lo + 1, lo + n), Rev, "c", lo + 1, sil)>>
 
 SnapItems(d) ==          \* how the read d (at snapR) is reported on a Watcher's channel
   LET gone == IF DSnapDeletes THEN Dels(DOMAIN cview \ DOMAIN d) ELSE <<>> IN
-  IF gone \o Puts(d) = <<>> THEN <<>> ELSE <<Item(gone \o Puts(d), snapR, "s")>>
+  IF gone \o Puts(d) = <<>> THEN <<>> ELSE <<Item(gone \o Puts(d), snapR, "s", 0, sil)>>
 
 RetRec == [op |-> "ret",
            code |-> IF cph = "retfail" THEN (IF gres = "empty" THEN NotFound ELSE 1)
@@ -339,38 +341,39 @@ EnvActs ==
 MCActs == IF ClientActs # {} THEN ClientActs ELSE EnvActs
 
 DesignEff(a) ==
-  CASE a.op = "start" -> cph' = "needget" /\ UNCHANGED <<pipe, cview>>
-    [] a.op = "getcall" -> cph' = "inget" /\ UNCHANGED <<pipe, cview>>
+  CASE a.op = "start" -> cph' = "needget" /\ UNCHANGED <<pipe, cview, sil>>
+    [] a.op = "getcall" -> cph' = "inget" /\ UNCHANGED <<pipe, cview, sil>>
     [] a.op = "serveget" ->
          /\ cph' = IF ended # "no" THEN "over"
                    ELSE IF gres' = "full" \/ (gres' = "empty" /\ ign) THEN "needwatch"
                    ELSE IF mode = "dir" THEN "retfail" ELSE "needget"
-         /\ UNCHANGED <<pipe, cview>>
-    [] a.op = "watchcall" -> cph' = "inwatch" /\ UNCHANGED <<pipe, cview>>
+         /\ UNCHANGED <<pipe, cview, sil>>
+    [] a.op = "watchcall" -> cph' = "inwatch" /\ UNCHANGED <<pipe, cview, sil>>
     [] a.op = "servewatch" ->
          IF mode = "dir"
-         THEN /\ cph' = "retok" /\ cview' = cview
+         THEN /\ cph' = "retok" /\ cview' = cview /\ sil' = sil
               /\ pipe' = IF wst' = "dead" THEN <<ErrI, ClosedI>> ELSE pipe
          ELSE LET d == At(snapR - 1) IN
               /\ cph' = IF wst' = "dead" THEN "needget" ELSE "run"
               /\ pipe' = pipe \o SnapItems(d)
+              /\ sil' = IF SnapItems(d) = <<>> THEN sil + 1 ELSE 0
               /\ cview' = IF DSnapDeletes THEN d ELSE Fold(cview, Puts(d))
-    [] a.op = "ret" -> cph' = (IF cph = "retok" /\ wst # "dead" THEN "run" ELSE "over") /\ UNCHANGED <<pipe, cview>>
+    [] a.op = "ret" -> cph' = (IF cph = "retok" /\ wst # "dead" THEN "run" ELSE "over") /\ UNCHANGED <<pipe, cview, sil>>
     [] a.op = "flush" ->
          /\ pipe' = pipe \o RespItems(sent, a.n)
          /\ cview' = Fold(cview, SubSeq(hist, sent + 1, sent + a.n))
-         /\ cph' = cph
+         /\ cph' = cph /\ sil' = 0
     [] a.op = "kill" ->
-         IF mode = "dir" THEN cph' = "over" /\ pipe' = pipe \o <<ErrI, ClosedI>> /\ cview' = cview
-         ELSE cph' = "needget" /\ UNCHANGED <<pipe, cview>>
+         IF mode = "dir" THEN cph' = "over" /\ pipe' = pipe \o <<ErrI, ClosedI>> /\ cview' = cview /\ sil' = sil
+         ELSE cph' = "needget" /\ UNCHANGED <<pipe, cview, sil>>
     [] a.op = "recv" ->
          /\ pipe' = IF pipe # <<>> /\ Head(pipe).k # "closed" THEN Tail(pipe) ELSE pipe
-         /\ UNCHANGED <<cph, cview>>
+         /\ sil' = (IF pipe = <<>> THEN 0 ELSE sil) /\ UNCHANGED <<cph, cview>>
     [] a.op = "cancel" ->
          /\ pipe' = IF cph = "over" THEN pipe ELSE pipe \o <<ErrI, ClosedI>>
-         /\ cph' = "over" /\ cview' = cview
+         /\ cph' = "over" /\ cview' = cview /\ sil' = sil
     [] a.op = "stop" ->
-         /\ pipe' = <<ClosedI>> /\ cview' = cview
+         /\ pipe' = <<ClosedI>> /\ cview' = cview /\ sil' = sil
          /\ cph' = IF a.r = "blocked" THEN cph ELSE "over"
     [] OTHER -> UNCHANGED design
 
@@ -392,10 +395,10 @@ TypeOK ==
   /\ wst \in {"none", "pend", "live", "dead"}
   /\ cursor \in 0..Len(hist) /\ prevI \in 0..Len(hist) /\ lastRev \in 0..Rev
   /\ ended \in {"no", "cancel", "stop", "done", "over"}
-(* the consumer's fold is the directory at its cursor whenever nothing is in flight *)
+(* nothing in flight on a live session: the consumer's fold is the directory *)
 Converged ==
   (bad = "" /\ began /\ ended = "no" /\ wst = "live" /\ pipe = <<>> /\ sent = Len(hist) /\ snapQ = <<>>
      /\ (mode = "watcher" \/ chOpen))
-  => TRUE
+  => SameDir(At(cursor), At(Len(hist)))
 View == <<svars, bad, design>>
 =============================================================================
